@@ -1037,7 +1037,7 @@ Proof.
   - exact I.
   - apply I2_neutral; simpl; auto.
   - exact I.
-  - rewrite H in I. simpl in I. rewrite app_nil_r. exact I.
+  - rewrite H in I. simpl in I. try rewrite app_nil_r. exact I.
   - (* cb *)
     destruct I1 as [_ Hw _ Hd]. unfold live in *. rewrite H in *. simpl in *.
     inversion Hw as [|? ? [_ Hr] _]; subst. inversion Hd as [|? ? [Hz _] _]; subst.
@@ -1047,7 +1047,7 @@ Proof.
   - apply I2_neutral; simpl; auto.
   - exact I.
   - apply I2_neutral; simpl; auto.
-  - rewrite app_nil_r. rewrite <- app_assoc. rewrite !map_app in *. rewrite map_lkey_set_err. exact I.
+  - rewrite app_nil_r. rewrite !map_app in *. rewrite map_lkey_set_err. exact I.
   - apply I2_neutral; simpl; auto.
   - apply I2_neutral; simpl; auto.
 Qed.
@@ -1058,4 +1058,300 @@ Proof. induction 1; auto. intros [A B]. apply IHsteps. split; eauto using Inv1_p
 Lemma Inv2_init blk o sa pw : Inv2 (init blk o sa pw).
 Proof.
   unfold Inv2, init, live; cbn. constructor; simpl; auto; try constructor; try tauto.
+Qed.
+
+(* ------------------------------------------------------------------ *)
+(* invariant, part 3: the byte stream                                  *)
+(* ------------------------------------------------------------------ *)
+Fixpoint chunks (t : list event) : list (nat * N * N) :=     (* newest first *)
+  match t with
+  | [] => []
+  | EChunk i o l :: t' => (i, o, l) :: chunks t'
+  | _ :: t' => chunks t'
+  end.
+
+(* bytes [off, off+len) of request id; a byte is (request, index) *)
+Definition bytes_of (id : nat) (off len : N) : list (nat * N) :=
+  map (fun i => (id, off + N.of_nat i)) (seq 0 (N.to_nat len)).
+
+Definition expand (cs : list (nat * N * N)) : list (nat * N) :=
+  flat_map (fun c => bytes_of (fst (fst c)) (snd (fst c)) (snd c)) cs.
+
+(* everything the OS accepted, in the order it accepted it *)
+Definition sent (t : list event) : list (nat * N) := expand (rev (chunks t)).
+
+Lemma map_seq_shift {A} (f : nat -> A) k : forall n s,
+  map f (seq (k + s) n) = map (fun i => f (k + i)%nat) (seq s n).
+Proof.
+  induction n; intros s; simpl; auto. f_equal. rewrite plus_n_Sm. apply IHn.
+Qed.
+
+Lemma bytes_of_app id a b : bytes_of id 0 (a + b) = bytes_of id 0 a ++ bytes_of id a b.
+Proof.
+  unfold bytes_of. rewrite N2Nat.inj_add, seq_app, map_app. f_equal. simpl.
+  rewrite <- (Nat.add_0_r (N.to_nat a)) at 1. rewrite map_seq_shift.
+  apply map_ext. intros i. f_equal. lia.
+Qed.
+
+Lemma bytes_of_0 id off : bytes_of id off 0 = [].
+Proof. reflexivity. Qed.
+
+Lemma sent_chunk i o l t : sent (EChunk i o l :: t) = sent t ++ bytes_of i o l.
+Proof.
+  unfold sent, expand. simpl. rewrite flat_map_app. simpl. rewrite app_nil_r. reflexivity.
+Qed.
+
+Lemma flat_map_nil {A B} (g : A -> list B) l : (forall x, In x l -> g x = []) -> flat_map g l = [].
+Proof. induction l; simpl; auto. intros H. rewrite (H a), IHl; auto. Qed.
+
+Lemma flat_map_ext_in {A B} (f g : A -> list B) l :
+  (forall a, In a l -> f a = g a) -> flat_map f l = flat_map g l.
+Proof. induction l; simpl; auto. intros H. rewrite (H a), IHl; auto. Qed.
+
+Lemma flat_map_update {B} (g g' : nat -> list B) n id x :
+  (id < n)%nat -> (x = [] \/ forall id', (id < id')%nat -> g id' = []) ->
+  g' id = g id ++ x -> (forall id', id' <> id -> g' id' = g id') ->
+  flat_map g' (seq 0 n) = flat_map g (seq 0 n) ++ x.
+Proof.
+  intros Hlt Hz Hid Hne.
+  assert (Hsplit : seq 0 n = seq 0 id ++ [id] ++ seq (S id) (n - id - 1)).
+  { replace n with (id + (1 + (n - id - 1)))%nat at 1 by lia. rewrite !seq_app. simpl.
+    replace (id + 1)%nat with (S id) by lia. reflexivity. }
+  rewrite Hsplit, !flat_map_app. simpl. rewrite !app_nil_r, Hid.
+  rewrite (flat_map_ext_in g' g (seq 0 id)).
+  2: { intros a Ha. apply in_seq in Ha. apply Hne. lia. }
+  rewrite (flat_map_ext_in g' g (seq (S id) (n - id - 1))).
+  2: { intros a Ha. apply in_seq in Ha. apply Hne. lia. }
+  destruct Hz as [->|Hz].
+  - rewrite !app_nil_r. reflexivity.
+  - rewrite (flat_map_nil g (seq (S id) (n - id - 1))).
+    2: { intros a Ha. apply in_seq in Ha. apply Hz. lia. }
+    rewrite !app_nil_r, <- !app_assoc. reflexivity.
+Qed.
+
+Definition wkey (r : req) : nat * N := (r_id r, req_size r).
+
+Record I3 (W : list (nat * N)) (n : nat) (t : list event) : Prop := {
+  k_exp : sent t = flat_map (fun id => bytes_of id 0 (acc t id)) (seq 0 n);
+  k_front : Forall (fun w => 0 < snd w -> forall id', (fst w < id')%nat -> acc t id' = 0) W;
+  k_try : forall id c, In (ETryRet id c) t -> acc t id = Z.to_N c /\ exists tot, In (ETry id tot) t;
+  k_try_le : forall id tot, In (ETry id tot) t -> acc t id <= tot;
+  k_disj : forall id t1 t2, In (EWrite id t1) t -> In (ETry id t2) t -> False
+}.
+
+Definition no_chunk (e : event) : Prop := match e with EChunk _ _ _ => False | _ => True end.
+
+Lemma acc_no_chunk e t id : no_chunk e -> acc (e :: t) id = acc t id.
+Proof. destruct e; simpl; tauto. Qed.
+Lemma sent_no_chunk e t : no_chunk e -> sent (e :: t) = sent t.
+Proof. destruct e; simpl; try tauto; reflexivity. Qed.
+
+(* an event that is neither a chunk nor about try_write nor a uv_write call *)
+Definition plain (e : event) : Prop :=
+  match e with EChunk _ _ _ | ETry _ _ | ETryRet _ _ | EWrite _ _ => False | _ => True end.
+
+Lemma I3_plain W n t e : plain e -> I3 W n t -> I3 W n (e :: t).
+Proof.
+  intros Hp [A B C D E].
+  assert (Hn : no_chunk e) by (destruct e; simpl in *; tauto).
+  constructor.
+  - rewrite sent_no_chunk; auto. rewrite A. apply flat_map_ext. intros. rewrite acc_no_chunk; auto.
+  - eapply Forall_impl; [|exact B]. intros w H Hw id' Hid. rewrite acc_no_chunk; auto.
+  - intros id c [Hc|Hc]; [subst e; destruct Hp|]. destruct (C _ _ Hc) as [X [tot Y]].
+    rewrite acc_no_chunk; auto. split; auto. exists tot; right; auto.
+  - intros id tot [Hc|Hc]; [subst e; destruct Hp|]. rewrite acc_no_chunk; auto.
+  - intros id t1 t2 [H1|H1]; [subst e; destruct Hp|]. intros [H2|H2]; [subst e; destruct Hp|]. eauto.
+Qed.
+
+Lemma I3_bump W n t : Forall (ev_id_lt n) t -> I3 W n t -> I3 W (S n) t.
+Proof.
+  intros Hf [A B C D E]. constructor; auto.
+  rewrite seq_S, flat_map_app. simpl. rewrite (acc_fresh _ _ Hf n); auto. rewrite A, !app_nil_r. reflexivity.
+Qed.
+
+Lemma I3_ewrite W n t id tot : Forall (ev_id_lt id) t -> I3 W n t -> I3 W n (EWrite id tot :: t).
+Proof.
+  intros Hf [A B C D E].
+  constructor.
+  - rewrite sent_no_chunk; simpl; auto.
+  - exact B.
+  - intros id' c [Hc|Hc]; [discriminate|]. destruct (C _ _ Hc) as [X [tot' Y]]. split; auto.
+    exists tot'; right; auto.
+  - intros id' tot' [Hc|Hc]; [discriminate|]. simpl. auto.
+  - intros id' t1 t2 [H1|H1] [H2|H2]; try discriminate.
+    + inversion H1; subst. apply (fresh_no_event _ _ Hf) in H2. simpl in H2. lia.
+    + eauto.
+Qed.
+
+Lemma I3_etry W n t id tot : Forall (ev_id_lt id) t -> I3 W n t -> I3 W n (ETry id tot :: t).
+Proof.
+  intros Hf [A B C D E].
+  constructor.
+  - rewrite sent_no_chunk; simpl; auto.
+  - exact B.
+  - intros id' c [Hc|Hc]; [discriminate|]. destruct (C _ _ Hc) as [X [tot' Y]]. split; auto.
+    exists tot'; right; auto.
+  - intros id' tot' [Hc|Hc].
+    + inversion Hc; subst. simpl. rewrite (acc_fresh _ _ Hf); auto. lia.
+    + simpl. auto.
+  - intros id' t1 t2 [H1|H1] [H2|H2]; try discriminate.
+    + inversion H2; subst. apply (fresh_no_event _ _ Hf) in H1. simpl in H1. lia.
+    + eauto.
+Qed.
+
+Lemma I3_tryret W n t id c :
+  acc t id = Z.to_N c -> (exists tot, In (ETry id tot) t) -> I3 W n t -> I3 W n (ETryRet id c :: t).
+Proof.
+  intros Ha Ht [A B C D E].
+  constructor.
+  - rewrite sent_no_chunk; simpl; auto.
+  - exact B.
+  - intros id' c' [Hc'|Hc'].
+    + inversion Hc'; subst. simpl. split; auto. destruct Ht as [tot Ht]. exists tot; right; auto.
+    + destruct (C _ _ Hc') as [X [tot' Y]]. split; auto. exists tot'; right; auto.
+  - intros id' tot' [Hc'|Hc']; [discriminate|]. apply D; auto.
+  - intros id' t1 t2 [H1|H1] [H2|H2]; try discriminate. eauto.
+Qed.
+
+Lemma I3_chunk_fresh W n t tot m :
+  m <= tot -> Forall (ev_id_lt n) t -> Forall (fun w => snd w = 0) W ->
+  I3 W (S n) (ETry n tot :: t) -> I3 W (S n) (EChunk n 0 m :: ETry n tot :: t).
+Proof.
+  intros Hm Hf Hz [A B C D E].
+  assert (Hf' : Forall (ev_id_lt (S n)) (ETry n tot :: t)).
+  { constructor; [simpl; lia|]. eapply Forall_impl; [|exact Hf]. intros e. apply ev_id_lt_mono. lia. }
+  assert (Ha0 : acc t n = 0) by (apply (acc_fresh _ _ Hf); auto).
+  constructor.
+  - rewrite sent_chunk, A. symmetry.
+    apply flat_map_update with (id := n); [lia | right | | ].
+    + intros id' Hid. rewrite (acc_fresh _ _ Hf'); auto.
+    + cbn [acc]. rewrite Nat.eqb_refl, Ha0, N.add_0_r. reflexivity.
+    + intros id' Hne. cbn [acc]. destruct (Nat.eqb_spec n id'); [congruence|]. reflexivity.
+  - eapply Forall_impl; [|exact Hz]. intros w Hw Hpos. simpl in *. exfalso. lia.
+  - intros id c Hc. destruct Hc as [Hc|Hc]; [discriminate|].
+    destruct (C _ _ Hc) as [X [tot' Y]]. split; [|exists tot'; right; auto].
+    cbn [acc]. destruct (Nat.eqb_spec n id) as [<-|Hne]; auto.
+    destruct Hc as [Hc|Hc]; [discriminate|]. apply (fresh_no_event _ _ Hf) in Hc. simpl in Hc. lia.
+  - intros id tot' Ht. destruct Ht as [Ht|Ht]; [discriminate|].
+    cbn [acc]. destruct (Nat.eqb_spec n id) as [<-|Hne].
+    + rewrite Ha0. destruct Ht as [Ht|Ht].
+      * inversion Ht; subst. lia.
+      * apply (fresh_no_event _ _ Hf) in Ht. simpl in Ht. lia.
+    + apply (D id tot' Ht).
+  - intros id t1 t2 [H1|H1] [H2|H2]; try discriminate. eauto.
+Qed.
+
+Lemma I3_chunk W n t id rem off tot m :
+  m <= rem -> (id < n)%nat -> acc t id = off -> In (EWrite id tot) t ->
+  Forall (fun w => (id < fst w)%nat) W ->
+  I3 ((id, rem) :: W) n t -> I3 ((id, rem - m) :: W) n (EChunk id off m :: t).
+Proof.
+  intros Hm Hid Ha Hw Hs [A B C D E]. inversion B as [|? ? B1 B2]; subst. simpl in B1.
+  constructor.
+  - rewrite sent_chunk, A. symmetry.
+    apply flat_map_update with (id := id); auto.
+    + destruct (N.eqb_spec m 0) as [->|Hm0]; [left; reflexivity | right].
+      intros id' Hid'. rewrite B1; auto. lia.
+    + cbn [acc]. rewrite Nat.eqb_refl. rewrite N.add_comm. apply bytes_of_app.
+    + intros id' Hne. cbn [acc]. destruct (Nat.eqb_spec id id'); [congruence|]. reflexivity.
+  - constructor.
+    + simpl. intros Hpos id' Hid'. destruct (Nat.eqb_spec id id'); [lia|]. simpl. apply B1; auto. lia.
+    + rewrite Forall_forall in *. intros w Hw' Hpos id' Hid'. specialize (Hs w Hw').
+      simpl. destruct (Nat.eqb_spec id id'); [lia|]. simpl. apply (B2 w Hw'); auto.
+  - intros id' c Hc. destruct Hc as [Hc|Hc]; [discriminate|].
+    destruct (C _ _ Hc) as [X [tot' Y]]. split; [|exists tot'; right; auto].
+    cbn [acc]. destruct (Nat.eqb_spec id id') as [<-|Hne]; auto. exfalso; eauto.
+  - intros id' tot' Ht. destruct Ht as [Ht|Ht]; [discriminate|].
+    cbn [acc]. destruct (Nat.eqb_spec id id') as [<-|Hne]; [exfalso; eauto|]. apply (D id' tot' Ht).
+  - intros id' t1 t2 [H1|H1] [H2|H2]; try discriminate. eauto.
+Qed.
+
+Definition Inv3 (s : st) : Prop := I3 (map wkey (wq s)) (next_id s) (tr s).
+
+Lemma I3_tail w W n t : I3 (w :: W) n t -> I3 W n t.
+Proof. intros [A B C D E]. inversion B; subst. constructor; auto. Qed.
+
+Lemma I3_nil W n t : I3 W n t -> I3 [] n t.
+Proof. intros [A B C D E]. constructor; auto. Qed.
+
+Lemma I3_enq W n t tot : Forall (ev_id_lt (S n)) t -> I3 W (S n) t -> I3 (W ++ [(n, tot)]) (S n) t.
+Proof.
+  intros Hf [A B C D E]. constructor; auto.
+  apply Forall_app; split; auto. constructor; auto. simpl. intros _ id' Hid.
+  apply (acc_fresh _ _ Hf). lia.
+Qed.
+
+Lemma sorted_mid_lt l1 x l2 : StronglySorted lt (l1 ++ x :: l2) -> Forall (lt x) l2.
+Proof.
+  induction l1; simpl; intros H; inversion H; subst; auto.
+Qed.
+
+Lemma sum_rem_zero l : sum_rem l = 0 -> Forall (fun r => req_size r = 0) l.
+Proof. induction l; simpl; intros H; constructor; [lia | apply IHl; lia]. Qed.
+
+Lemma fresh_bump n t : Forall (ev_id_lt n) t -> Forall (ev_id_lt (S n)) t.
+Proof. intros H. eapply Forall_impl; [|exact H]. intros e. apply ev_id_lt_mono. lia. Qed.
+
+Lemma Inv3_prim s s' : prim s s' -> Inv1 s -> Inv2 s -> Inv3 s -> Inv3 s'.
+Proof.
+  intros P I1 I2' I. unfold Inv3, Inv2 in *.
+  pose proof I2' as [Js Jf Jl _ _ Ja _ _ _ _ _].
+  destruct P; unfold live, call0, finish_head, flush in *; cbn in *.
+  - destruct H as (E1 & _ & _ & _ & _ & _ & _ & _ & _ & E4 & E5). rewrite E1, E4, E5. exact I.
+  - (* chunk *)
+    destruct I1 as [_ Hw _ _]. unfold live in Hw. rewrite H in *.
+    apply Forall_app3 in Hw. destruct Hw as (_ & _ & Hw). inversion Hw as [|? ? Hr _]; subst.
+    destruct (req_update_spec r n Hr H0) as (_ & Es & Ei & _ & _ & _ & _).
+    simpl in *. unfold wkey at 1. rewrite Ei, Es.
+    rewrite !app_assoc, map_app in Js, Jl, Ja. simpl in Js, Jl, Ja.
+    apply Forall_app in Jl. destruct Jl as [_ Jl]. inversion Jl as [|? ? Jl1 _]; subst.
+    apply Forall_app in Ja. destruct Ja as [_ Ja]. inversion Ja as [|? ? (Ja1 & Ja2 & _) _]; subst.
+    rewrite map_app in Js. simpl in Js. apply sorted_mid_lt in Js.
+    unfold kid, koff, ktot, lkey in *; simpl in *.
+    eapply I3_chunk; eauto.
+    rewrite Forall_map. rewrite Forall_map in Js. rewrite Forall_map in Js. exact Js.
+  - rewrite H in I. simpl in I. eapply I3_tail; eauto.
+  - rewrite H in I. simpl in I. eapply I3_tail; eauto.
+  - apply I3_plain; simpl; auto. apply I3_ewrite; auto. apply I3_bump; auto.
+  - rewrite map_app. simpl. apply I3_enq.
+    + constructor; [simpl; lia | apply fresh_bump; auto].
+    + apply I3_ewrite; auto. apply I3_bump; auto.
+  - apply I3_plain; simpl; auto.
+  - apply I3_tryret.
+    + simpl. rewrite (acc_fresh _ _ Jf); auto. lia.
+    + exists (sumN bufs). left; auto.
+    + apply I3_etry; auto. apply I3_bump; auto.
+  - (* try_ok *)
+    assert (Hz : Forall (fun w => snd w = 0) (map wkey (wq s))).
+    { destruct I1 as [Hs _ _ _]. rewrite H in Hs. symmetry in Hs. apply sum_rem_zero in Hs.
+      unfold live in Hs. apply Forall_app3 in Hs. destruct Hs as (_ & _ & Hs).
+      rewrite Forall_map. exact Hs. }
+    apply I3_tryret.
+    + simpl. rewrite Nat.eqb_refl, (acc_fresh _ _ Jf); auto. lia.
+    + exists (sumN bufs). right; left; auto.
+    + apply I3_chunk_fresh; auto. apply I3_etry; auto. apply I3_bump; auto.
+  - apply I3_plain; simpl; auto.
+  - exact I.
+  - apply I3_plain; simpl; auto.
+  - exact I.
+  - exact I.
+  - destruct (r_freed r); cbn; apply I3_plain; simpl; auto.
+  - exact I.
+  - apply I3_plain; simpl; auto.
+  - exact I.
+  - apply I3_plain; simpl; auto.
+  - eapply I3_nil; eauto.
+  - apply I3_plain; simpl; auto.
+  - apply I3_plain; simpl; auto.
+Qed.
+
+Lemma Inv3_init blk o sa pw : Inv3 (init blk o sa pw).
+Proof.
+  unfold Inv3, init; cbn. constructor; simpl; auto; try tauto. intros; tauto.
+Qed.
+
+Lemma Inv123_steps s s' : steps s s' -> Inv1 s /\ Inv2 s /\ Inv3 s -> Inv1 s' /\ Inv2 s' /\ Inv3 s'.
+Proof.
+  induction 1; auto. intros (A & B & C). apply IHsteps.
+  repeat split; eauto using Inv1_prim, Inv2_prim, Inv3_prim.
 Qed.
